@@ -100,6 +100,10 @@ pub fn alphabet() -> Vec<Build> {
         // of its own has set them; several entries of one table that collide (aliases of one register,
         // constants of one value, labels of one address) - whatever is picked among them must not
         // depend on a table's iteration order or on an earlier build
+        // evaluations of tens of thousands of symbol resolutions (each definition uses the previous
+        // one twice): what an evaluation counts is its own
+        Build::Str("expensive-symbol-A", expensive(15, "ea")),
+        Build::Str("expensive-symbol-B", expensive(14, "eb")),
         Build::Str("pc-in-if", "nop\n.if pc > 0\n.message \"not at the start\"\n.endif\nnop\n"),
         Build::Str("pc-in-org", "nop\nnop\n.org pc + 4\nnop\n"),
         Build::Str("pc-in-macro-if", "; a macro that looks at the position\n; (two comment lines)\n; (three)\n.macro at_m\n.if pc\nnop\n.endif\n.endm\nnop\nat_m\n"),
@@ -118,6 +122,22 @@ fn many_names() -> &'static str {
             s.push_str(&format!(".equ mn_k{} = {}\n.set mn_s{} = {}\n.def mn_r{} = r{}\nmn_l{}: nop\n.macro mn_m{}\nnop\n.endm\n.define MN_F{}\n", i, i, i, i, i, 16 + i, i, i, i));
         }
         s.push_str("mn_l5: nop\nmn_m99\nldi r16, mn_k99\n");
+        s
+    })
+    .as_str()
+}
+
+/// `.equ p0 = 1 + 0`, `.equ p<i> = p<i-1> + p<i-1>` up to n, `.dq p<n>`: 2^(n+1) - 1 resolutions
+fn expensive(n: usize, p: &'static str) -> &'static str {
+    static A: std::sync::OnceLock<String> = std::sync::OnceLock::new();
+    static B: std::sync::OnceLock<String> = std::sync::OnceLock::new();
+    let cell = if p == "ea" { &A } else { &B };
+    cell.get_or_init(|| {
+        let mut s = format!(".equ {}0 = 1 + 0\n", p);
+        for i in 1..=n {
+            s.push_str(&format!(".equ {}{} = {}{} + {}{}\n", p, i, p, i - 1, p, i - 1));
+        }
+        s.push_str(&format!(".dq {}{}\n", p, n));
         s
     })
     .as_str()
@@ -335,6 +355,13 @@ pub fn run(tier: Tier) -> i32 {
     // two builds that each need more than half of the device: points at every item of pass 0
     for (a, b) in [("tiny13-fill-A", "tiny13-fill-B"), ("tiny13-fill-A", "tiny13-fill-A"), ("tiny13-fill-B", "macro-recursive")] {
         special.insert(configs.len(), (sched::Gran::Tags(&["pass0.item"]), 1));
+        configs.push(vec![vec![idx(a)], vec![idx(b)]]);
+    }
+    // two evaluations of 65535 and 32767 symbol resolutions side by side, with
+    // a point at every 8192nd resolution of a thread: what one evaluation counts must not be seen
+    // by the other
+    for (a, b) in [("expensive-symbol-A", "expensive-symbol-A"), ("expensive-symbol-A", "expensive-symbol-B")] {
+        special.insert(configs.len(), (sched::Gran::Tags(&["expr.resolve"]), 1));
         configs.push(vec![vec![idx(a)], vec![idx(b)]]);
     }
     if tier.thorough() {
